@@ -1703,6 +1703,11 @@ class Tensor:
         if self._base is not None and not self._base._view_children:
             self._base = None
 
+        if self._base is not None:
+            # the base is about to be mutated through this view: its gradient
+            # (left over from an earlier backward pass) is stale as well
+            self._base.null_grad()
+
         graph = _dup.DuplicatingGraph(self if self.base is None else self.base)
 
         # Create copy of base so that mutation has no impact on the
@@ -1936,6 +1941,9 @@ class Tensor:
         # raise here if the shape is not compatible
         self.data.shape = newshape
         self.data.shape = old_shape
+
+        # a gradient left over from an earlier backward pass has the old shape
+        self.null_grad()
 
         # create placeholders for self and all of its view-children
         graph = _dup.DuplicatingGraph(self)
